@@ -226,6 +226,12 @@ func (c01) Eval(c *Chooser, env *Env) *Outcome {
 	} else {
 		flags = append(flags, "-no-color", "-shellcheck=", "-pyflakes=")
 	}
+	switch c.Int("world.logflag", 6) {
+	case 1:
+		flags = append(flags, "-verbose")
+	case 2:
+		flags = append(flags, "-debug")
+	}
 	explicitCfg := ""
 	var stdin *faultyReader
 	switch mode {
